@@ -1,6 +1,7 @@
 package checks
 
 import (
+	"sort"
 	"bytes"
 	"errors"
 	"fmt"
@@ -42,9 +43,10 @@ type rfMode struct {
 	chunked bool
 	size    int64
 	comp    string
+	custom  int // gow.Config.Custom
 }
 
-var rfModes = []rfMode{{false, 0, ""}, {true, 64, ""}, {true, 64, "zstd"}, {true, 64, "lz4"}}
+var rfModes = []rfMode{{false, 0, "", 0}, {true, 64, "", 0}, {true, 64, "zstd", 0}, {true, 64, "lz4", 0}}
 
 // chooseFile enumerates workload x chunk mode x CRC.
 func chooseFile(x *explore.Ctx, nWork int, modes []rfMode, crcChoice bool) *rfFile {
@@ -61,7 +63,7 @@ func chooseFileFrom(x *explore.Ctx, ws []*model.Content, nWork int, modes []rfMo
 	if crcChoice {
 		crc = !x.Bool("cfg")
 	}
-	cfg := gow.Config{CRC: crc, Chunked: m.chunked, ChunkSize: m.size, Compression: m.comp}
+	cfg := gow.Config{CRC: crc, Chunked: m.chunked, ChunkSize: m.size, Compression: m.comp, Custom: m.custom}
 	x.Ops += len(c.Ops)
 	key := cfg.String() + "|" + c.String()
 	fileCacheMu.Lock()
@@ -194,13 +196,81 @@ func (p plainReader) Read(b []byte) (int, error) { return p.r.Read(b) }
 
 // ---------------------------------------------------------------- C09
 
-func c09Body(nWork int) explore.Body {
+func c09Body(nWork int) explore.Body { return c09BodyFrom(rfWorkloads(), nWork, nil) }
+
+// c09BigWorkloads hold records larger than every fixed threshold of the lexer (64 KiB, the caller's
+// buffer, the chunk size): a 100 KiB message, a 70 KiB attachment, a 66 KiB schema.
+func c09BigWorkloads() []*model.Content {
+	bigS := *model.S1
+	bigS.ID = 3
+	bigS.Data = bytes.Repeat([]byte("schema text "), 5600)
+	bigC := *model.C1
+	bigC.ID, bigC.SchemaID = 5, 3
+	bigA := *model.A1
+	bigA.Data = bytes.Repeat([]byte{1, 2, 3, 4, 5, 6, 7}, 10240)
+	return []*model.Content{
+		model.Fixed(model.Headers[0], model.Chn(model.C0), model.Msg(0, 1, 3, 0), model.Msg(0, 2, 100<<10, 0), model.Msg(0, 3, 5, 0), model.Att(&bigA), model.Msg(0, 4, 1, 0)),
+		model.Fixed(model.Headers[0], model.Sch(&bigS), model.Chn(&bigC), model.Msg(5, 1, 70000, 0), model.Met(model.D1), model.Msg(5, 2, 0, 0)),
+	}
+}
+
+// bigCuts: every position within 24 bytes of a record boundary (top level and inside uncompressed
+// chunks) and every 4099th position in between.
+func bigCuts(f *rfFile) []int {
+	set := map[int]bool{}
+	mark := func(p int) {
+		for d := -24; d <= 24; d++ {
+			if p+d >= 0 && p+d < len(f.bytes) {
+				set[p+d] = true
+			}
+		}
+	}
+	for i := range f.dec.Recs {
+		r := &f.dec.Recs[i]
+		mark(r.Off)
+		mark(r.End())
+		if r.Chunk != nil && r.Chunk.Compression == "" {
+			for j := range r.Inner {
+				mark(r.Chunk.RecordsOff + r.Inner[j].Off)
+			}
+		}
+	}
+	for p := 0; p < len(f.bytes); p += 4099 {
+		set[p] = true
+	}
+	out := make([]int, 0, len(set))
+	for p := range set {
+		out = append(out, p)
+	}
+	sort.Ints(out)
+	return out
+}
+
+var cutCache = map[string][]int{}
+
+func c09BodyFrom(ws []*model.Content, nWork int, cuts func(*rfFile) []int) explore.Body {
 	return func(x *explore.Ctx) *explore.Verdict {
-		f := chooseFile(x, nWork, rfModes, true)
-		k := x.Choose("fault", len(f.bytes)+1) // 0 = intact, k = cut at k-1
-		cut := len(f.bytes)
-		if k > 0 {
-			cut = k - 1
+		f := chooseFileFrom(x, ws, nWork, rfModes, true)
+		var k, cut int
+		if cuts == nil {
+			k = x.Choose("fault", len(f.bytes)+1) // 0 = intact, k = cut at k-1
+			cut = len(f.bytes)
+			if k > 0 {
+				cut = k - 1
+			}
+		} else {
+			fileCacheMu.Lock()
+			cs := cutCache[f.key]
+			if cs == nil {
+				cs = cuts(f)
+				cutCache[f.key] = cs
+			}
+			fileCacheMu.Unlock()
+			k = x.Choose("fault", len(cs)+1)
+			cut = len(f.bytes)
+			if k > 0 {
+				cut = cs[k-1]
+			}
 		}
 		data := f.bytes[:cut]
 		x.Note = func() any {
@@ -273,10 +343,11 @@ func C09(r *chk.Run) {
 	if r.Thorough() {
 		n = 3
 	}
-	r.Rule("crash points: every cut position 0..len-1 of every file of {workloads with several chunks, attachment and metadata between chunks} x {unchunked, none/64, zstd/64, lz4/64} x {CRC on, off}; each prefix read through the lexer (validation on/off, with and without attachment callback, seekable and non-seekable source, 20 s watchdog) and the non-indexed iterator; distinct = distinct prefixes")
+	r.Rule("crash points: every cut position 0..len-1 of every file of {workloads with several chunks, attachment and metadata between chunks} x {unchunked, none/64, zstd/64, lz4/64} x {CRC on, off}; plus files with records above every internal threshold (100 KiB message, 70 KiB attachment, 66 KiB schema) cut at every position within 24 bytes of a record boundary and at every 4099th byte; each prefix read through the lexer (validation on/off, with and without attachment callback, seekable and non-seekable source, 20 s watchdog) and the non-indexed iterator; distinct = distinct prefixes")
 	r.Assume("the lower bound demanded is the one the property states: every message of every chunk whose record ends at or before the cut")
 	r.Assume("the sink-side statement (the sink always holds a prefix of the final file) is checked after every individual Write by C14's fault-free and faulty runs")
 	r.Phase("cuts", c09Body(n), chk.PhaseOpts{Bound: 1, SplitLen: 3})
+	r.Phase("cuts-around-large-records", c09BodyFrom(c09BigWorkloads(), 2, bigCuts), chk.PhaseOpts{Bound: 1, SplitLen: 3, Share: 0.4})
 	// larger family: generated workloads (depth <= 3, tiny alphabet)
 	depth := 3
 	if r.Thorough() {
